@@ -19,7 +19,23 @@ ASSUMPTIONS = ["the class docstring of IndxIO is the format specification", "lit
 
 
 class Duck:
+    """stands for a row-id array of n words without holding them; it has the attributes of an ndarray a writer may look at"""
     dtype = np.dtype(np.uint32)
+    base = None
+    ndim = 1
+    flags = np.zeros(1, dtype=np.uint32).flags
+
+    @property
+    def shape(self):
+        return (self.n,)
+
+    @property
+    def size(self):
+        return self.n
+
+    @property
+    def nbytes(self):
+        return self.n * 4
 
     def __init__(self, n):
         self.n = n
